@@ -856,11 +856,16 @@ Proof.
     rewrite Er. apply (LtsFanoutProofs.subseq_app_l _ (x :: X3') r).
 Qed.
 
-(* what one consumer was handed passes the stream oracle *)
-Lemma stream_ok : forall c, l_var c = fixed -> NoDup (map p_id (l_pkts c)) -> forall i,
-  ok_stream (l_pkts c) (l_gop c) (map p_id (l_pkts c)) (map p_id (c_out (s_cs (lrun c) i))) = true.
+(* what one consumer was handed: no repeat, only published ids, and the split at the length of
+   its join replay passes [split_ok] *)
+Lemma stream_facts : forall c, l_var c = fixed -> NoDup (map p_id (l_pkts c)) -> forall i,
+  let out := map p_id (c_out (s_cs (lrun c) i)) in
+  let j := Nat.min (length (c_prefill (s_cs (lrun c) i))) (length out) in
+  nodupZ out = true /\
+  forallb (fun x => memZ x (map p_id (l_pkts c))) out = true /\
+  split_ok (l_pkts c) (l_gop c) (map p_id (l_pkts c)) out j = true.
 Proof.
-  intros c Hv Hnd i. pose proof (lrun_fixed c Hv) as Hs.
+  intros c Hv Hnd i. cbv zeta. pose proof (lrun_fixed c Hv) as Hs.
   destruct (prefill_facts c Hv i) as (Hpin & Hpnd & _ & Hshape).
   set (s := lrun c) in *. set (k := s_cs s i) in *.
   pose proof (LtsFanoutProofs.delivered_prefix_of_pushed (l_maxq c) rcache (rc_empty (l_gop c)) rc_add
@@ -893,16 +898,15 @@ Proof.
   assert (Hpre : forall a, In a (firstn n (c_out k)) -> In a (c_prefill k)).
   { intros a Ha. rewrite E. apply in_or_app. left. exact Ha. }
   assert (Hlive : LtsFanoutProofs.live_out k = skipn n (c_out k)) by reflexivity.
-  unfold ok_stream. rewrite !andb_true_iff. repeat split.
+  split; [|split].
   - apply nodupZ_NoDup. apply F7; [exact Hnd|apply Hpnd; exact Hnd].
   - apply forallb_forall. intros x Hx. apply memZ_In.
     apply in_map_iff in Hx. destruct Hx as (a & <- & Ha). apply in_map.
     rewrite <- (firstn_skipn n (c_out k)) in Ha. apply in_app_or in Ha. destruct Ha as [Ha|Ha].
     + apply Hpin, Hpre, Ha.
     + apply F8. rewrite Hlive. exact Ha.
-  - apply existsb_exists. exists (Nat.min n (length (map p_id (c_out k)))). split.
-    + apply in_seq. lia.
-    + unfold split_ok. rewrite firstn_min_len, skipn_min_len, firstn_map, skipn_map, <- Hlive.
+  - fold n.
+    { unfold split_ok. rewrite firstn_min_len, skipn_min_len, firstn_map, skipn_map, <- Hlive.
       rewrite !andb_true_iff. repeat split.
       * apply (replay_ok_shape (l_gop c) (l_pkts c) (c_prefill k)); [exact Hnd|exact Hshape| |].
         -- eexists. exact E.
@@ -922,7 +926,15 @@ Proof.
         rewrite Eids. apply pos_lt.
         -- rewrite <- Eids. exact Hnd.
         -- apply in_map. exact Ha'.
-        -- apply in_map. apply in_or_app. left. exact Hw.
+        -- apply in_map. apply in_or_app. left. exact Hw. }
+Qed.
+
+Lemma stream_ok : forall c, l_var c = fixed -> NoDup (map p_id (l_pkts c)) -> forall i,
+  ok_stream (l_pkts c) (l_gop c) (map p_id (l_pkts c)) (map p_id (c_out (s_cs (lrun c) i))) = true.
+Proof.
+  intros c Hv Hnd i. destruct (stream_facts c Hv Hnd i) as (H1 & H2 & H3).
+  unfold ok_stream. rewrite H1, H2. cbn [andb].
+  apply existsb_exists. eexists. split; [|exact H3]. apply in_seq. lia.
 Qed.
 
 Theorem C01_model_passes : forall c : lcase,
@@ -965,6 +977,132 @@ Proof.
   unfold gap_least. lia.
 Qed.
 
+(* ---- drops end only at a key-frame start, read off the delivered ids ---- *)
+
+Lemma gaps_ok_cons2 : forall pkts ids x y l,
+  gaps_ok pkts ids (x :: y :: l) =
+  (if S (posZ x ids) <? posZ y ids then (kind_of pkts y =? 2)%Z else true) && gaps_ok pkts ids (y :: l).
+Proof. reflexivity. Qed.
+
+Lemma gaps_ok_prefix : forall pkts ids l1 l2,
+  gaps_ok pkts ids (l1 ++ l2) = true -> gaps_ok pkts ids l1 = true.
+Proof.
+  intros pkts ids l1. induction l1 as [|x l1 IH]; intros l2 H; [reflexivity|].
+  destruct l1 as [|y l1]; [reflexivity|].
+  change ((x :: y :: l1) ++ l2) with (x :: y :: (l1 ++ l2)) in H.
+  rewrite gaps_ok_cons2 in H |- *. apply andb_true_iff in H. destruct H as [H1 H2].
+  rewrite H1. cbn [andb]. apply (IH l2). exact H2.
+Qed.
+
+Lemma pos_at : forall A p R,
+  NoDup (map p_id (A ++ p :: R)) -> posZ (p_id p) (map p_id (A ++ p :: R)) = length A.
+Proof.
+  intros A p R Hnd. rewrite map_app in *. cbn [map] in *. rewrite posZ_notin.
+  - cbn [posZ]. rewrite Z.eqb_refl, map_length. lia.
+  - intros Hin. eapply nodup_app_disj; [exact Hnd|exact Hin|left; reflexivity].
+Qed.
+
+Lemma pos_in_lt : forall A R x, In x A -> posZ (p_id x) (map p_id (A ++ R)) < length A.
+Proof.
+  intros A R x Hx. rewrite map_app.
+  destruct (posZ_in (p_id x) (map p_id A) (map p_id R) (in_map p_id _ _ Hx)) as [E H].
+  rewrite E. rewrite map_length in H. exact H.
+Qed.
+
+(* [x0]: the last packet kept so far; it is the packet just before [w] when [prev] says "kept" *)
+Lemma gaps_sel : forall keep w pkts A B prev x0,
+  pkts = A ++ w ++ B -> NoDup (map p_id pkts) -> LtsBacklogProofs.aligned prev keep w ->
+  In x0 A -> (prev = true -> exists A', A = A' ++ [x0]) ->
+  gaps_ok pkts (map p_id pkts) (p_id x0 :: map p_id (LtsBacklogProofs.select keep w)) = true.
+Proof.
+  induction keep as [|b keep IH]; intros w pkts A B prev x0 E Hnd Hal Hx0 Hlast.
+  - destruct w; reflexivity.
+  - destruct w as [|p w]; [cbn in Hal; contradiction|].
+    cbn [LtsBacklogProofs.aligned] in Hal. destruct Hal as [Hk Hal].
+    assert (E' : pkts = (A ++ [p]) ++ w ++ B) by (rewrite E, <- app_assoc; reflexivity).
+    cbn [LtsBacklogProofs.select]. destruct b.
+    + cbn [map]. rewrite gaps_ok_cons2. apply andb_true_iff. split.
+      * destruct (S (posZ (p_id x0) (map p_id pkts)) <? posZ (p_id p) (map p_id pkts)) eqn:El;
+          [|reflexivity].
+        apply Nat.ltb_lt in El.
+        assert (Hp : posZ (p_id p) (map p_id pkts) = length A).
+        { rewrite E. cbn [app]. apply pos_at. rewrite E in Hnd. exact Hnd. }
+        destruct prev.
+        -- exfalso. destruct (Hlast eq_refl) as [A' EA].
+           assert (Hx : posZ (p_id x0) (map p_id pkts) = length A').
+           { rewrite E, EA, <- app_assoc. cbn [app]. apply pos_at.
+             rewrite E, EA, <- app_assoc in Hnd. exact Hnd. }
+           rewrite EA, app_length in Hp. cbn [length] in Hp. lia.
+        -- rewrite kind_of_id; [apply Hk; discriminate|exact Hnd|].
+           rewrite E. apply in_or_app. right. left. reflexivity.
+      * apply (IH w pkts (A ++ [p]) B true p E' Hnd Hal).
+        -- apply in_or_app. right. left. reflexivity.
+        -- intros _. exists A. reflexivity.
+    + apply (IH w pkts (A ++ [p]) B false x0 E' Hnd Hal).
+      * apply in_or_app. left. exact Hx0.
+      * discriminate.
+Qed.
+
+Lemma gaps_sel0 : forall keep w pkts A B prev,
+  pkts = A ++ w ++ B -> NoDup (map p_id pkts) -> LtsBacklogProofs.aligned prev keep w ->
+  gaps_ok pkts (map p_id pkts) (map p_id (LtsBacklogProofs.select keep w)) = true.
+Proof.
+  induction keep as [|b keep IH]; intros w pkts A B prev E Hnd Hal.
+  - destruct w; reflexivity.
+  - destruct w as [|p w]; [cbn in Hal; contradiction|].
+    cbn [LtsBacklogProofs.aligned] in Hal. destruct Hal as [Hk Hal].
+    assert (E' : pkts = (A ++ [p]) ++ w ++ B) by (rewrite E, <- app_assoc; reflexivity).
+    cbn [LtsBacklogProofs.select]. destruct b.
+    + cbn [map]. apply (gaps_sel keep w pkts (A ++ [p]) B true p E' Hnd Hal).
+      * apply in_or_app. right. left. reflexivity.
+      * intros _. exists A. reflexivity.
+    + apply (IH w pkts (A ++ [p]) B false E' Hnd Hal).
+Qed.
+
+(* the packets broadcast while registered are a contiguous piece of the published list *)
+Lemma window_segment : forall sent r u rest,
+  exists A B, sent ++ rest = A ++ LtsBacklogProofs.window sent r u ++ B.
+Proof.
+  intros sent r u rest. destruct r as [a|]; [|exists [], (sent ++ rest); reflexivity].
+  cbn [LtsBacklogProofs.window].
+  set (X := match u with Some b => firstn b sent | None => sent end).
+  assert (HX : exists X', sent = X ++ X').
+  { unfold X. destruct u as [b|]; [exists (skipn b sent); symmetry; apply firstn_skipn|].
+    exists []. rewrite app_nil_r. reflexivity. }
+  destruct HX as [X' HX]. exists (firstn a X), (X' ++ rest).
+  rewrite HX at 1. rewrite <- (firstn_skipn a X) at 1. rewrite <- !app_assoc. reflexivity.
+Qed.
+
+(* the live part of what a consumer was handed passes the drop clause *)
+Lemma live_gaps_ok : forall c, l_var c = fixed -> NoDup (map p_id (l_pkts c)) -> forall i,
+  let k := s_cs (lrun c) i in
+  gaps_ok (l_pkts c) (map p_id (l_pkts c))
+          (map p_id (skipn (length (c_prefill k)) (c_out k))) = true.
+Proof.
+  intros c Hv Hnd i k. pose proof (lrun_fixed c Hv) as Hs.
+  pose proof (LtsBacklogProofs.inv_reachable (l_maxq c) rcache (rc_empty (l_gop c)) rc_add rc_snap
+                (l_n c) (pan c) 0 (l_pkts c) (l_sched c) (stp c)) as HI.
+  pose proof (LtsFanoutProofs.delivered_prefix_of_pushed (l_maxq c) rcache (rc_empty (l_gop c)) rc_add
+                rc_snap (l_n c) (pan c) (l_pkts c) (stp c) (l_sched c) i) as F1.
+  pose proof (LtsFanoutProofs.sent_prefix_of_published (l_maxq c) rcache (rc_empty (l_gop c)) rc_add
+                rc_snap (l_n c) (pan c) (l_pkts c) (stp c) (l_sched c)) as F5.
+  cbv zeta in F1, F5. rewrite <- Hs in HI, F1, F5. fold k in F1.
+  destruct HI as [_ _ HC]. destruct (HC i) as (H0 & _). fold k in H0.
+  pose proof (LtsBacklogProofs.ci_align _ _ _ H0) as Hal.
+  pose proof (LtsBacklogProofs.ci_pushed _ _ _ H0) as Hpu.
+  destruct F1 as [rest F1]. destruct F5 as [rest' F5].
+  set (n := length (c_prefill k)).
+  set (w := LtsBacklogProofs.window (s_sent (lrun c)) (c_regat k) (c_unregat k)) in *.
+  assert (Esel : LtsBacklogProofs.select (c_keep k) w =
+                 skipn n (c_out k) ++ skipn (n - length (c_out k)) rest).
+  { rewrite <- skipn_app, <- F1, Hpu, skipn_app. unfold n.
+    rewrite skipn_all, Nat.sub_diag. reflexivity. }
+  destruct (window_segment (s_sent (lrun c)) (c_regat k) (c_unregat k) rest') as (A & B & Eseg).
+  fold w in Eseg. rewrite <- F5 in Eseg.
+  pose proof (gaps_sel0 (c_keep k) w (l_pkts c) A B true Eseg Hnd Hal) as Hg.
+  rewrite Esel, map_app in Hg. apply gaps_ok_prefix in Hg. exact Hg.
+Qed.
+
 Theorem C04_model_passes : forall c : lcase,
   l_var c = fixed -> ok_C04 c (obs_of_state (l_n c) (lrun c)) = true.
 Proof.
@@ -975,7 +1113,7 @@ Proof.
                 (l_n c) (pan c) (l_pkts c) (stp c) (l_sched c)) as Hpan.
   cbv zeta in Hbl, Hpan. rewrite <- Hs in Hbl, Hpan.
   unfold ok_C04, obs_of_state. cbn [o_cons].
-  apply andb_true_iff. split.
+  rewrite !andb_true_iff. repeat split.
   - rewrite map_length, seq_length. apply Nat.eqb_refl.
   - apply forall_cons_map. intros i Hi. apply andb_true_iff. split.
     + unfold cobs_of. cbn [o_reg o_qlen]. destruct (c_reg (s_cs (lrun c) i)); [|reflexivity].
@@ -992,6 +1130,14 @@ Proof.
       destruct (pan c i <=? length (c_out (s_cs (lrun c) i))) eqn:E1; [|reflexivity].
       apply Nat.leb_le in E1. destruct (H2 E1) as (Hpc & Hreg & _).
       rewrite Hreg. destruct Hpc as [-> | ->]; reflexivity.
+  - destruct (nodupZ (map p_id (l_pkts c))) eqn:End; [|reflexivity].
+    apply nodupZ_NoDup in End.
+    apply forallb_map_seq. intros i Hi. unfold cobs_of. cbn [o_out].
+    destruct (stream_facts c Hv End i) as (_ & _ & Hsp).
+    pose proof (live_gaps_ok c Hv End i) as Hg. cbv zeta in Hsp, Hg.
+    apply existsb_exists. eexists. split; [|unfold split_ok4; rewrite Hsp; cbn [andb]].
+    + apply in_seq. lia.
+    + rewrite skipn_min_len, skipn_map. exact Hg.
 Qed.
 
 (* ------------------------------------------------------------------ *)
